@@ -73,7 +73,7 @@ M = [
   "        if !self.dirty {\n            return Ok(());\n        }", "        if false {\n            return Ok(());\n        }"),
  ("C10", "type-compared-after-reserving-header", "writer.rs",
   "            (t1, t2) if t1 != t2 => {\n                return Err(Error::MismatchShapeType {\n                    requested: t1,\n                    actual: t2,\n                });\n            }",
-  "            (t1, t2) if t1 != t2 => {\n                self.shp_dest.flush()?;\n                return Err(Error::MismatchShapeType {\n                    requested: t1,\n                    actual: t2,\n                });\n            }"),
+  "            (t1, t2) if t1 != t2 => {\n                self.header.write_to(&mut self.shp_dest)?;\n                return Err(Error::MismatchShapeType {\n                    requested: t1,\n                    actual: t2,\n                });\n            }"),
  ("C10", "writer-writes-row-first", "writer.rs",
   "        self.shape_writer.write_shape(shape)?;\n        self.dbase_writer.write_record(record)?;", "        self.dbase_writer.write_record(record)?;\n        self.shape_writer.write_shape(shape)?;"),
  ("C10", "mismatch-error-fields-swapped", "writer.rs",
